@@ -415,6 +415,10 @@ RECV_LEMMAS = {
     "frame": "",
     # the discrete equation's numerator and denominator stay finite numbers (what a finite, meaningful erosion rests on)
     "number": "__CPROVER_ensures(FINITE_D(*eq_num_p) && FINITE_D(*eq_den_p))   /* C12: numerator and denominator of the discrete equation are finite numbers */\n",
+    # C12 `never returns negative erosion`: the new elevation is a weighted mean of the node's elevation and the receivers' next elevations; a receiver
+    # standing ABOVE the node (a lake spill seen from its flank) would pull the node UP, so it must not enter the sums (seeded change C12_3)
+    "uphill": "__CPROVER_ensures(elevation[REC(inode, r)] > inode_elevation ==> (SAME_D(*eq_num_p, __CPROVER_old(*eq_num_p)) && SAME_D(*eq_den_p, __CPROVER_old(*eq_den_p))))"
+              "   /* C12: a receiver above the node contributes nothing */\n",
 }
 
 
@@ -455,8 +459,10 @@ STEP_RULES = LOCALS + [   # vocabulary first: the call texts inserted below pass
     OUTLINE_CONTINUE,
     outline_loop_block(1, RECV_CALL % ARGS),
     # ghost capture at the final store `m_erosion.flat(inode) = h - u;` (must be there: structural)
-    R(r"m_erosion\.flat\(inode\) = (\w+) - (\w+);",
-      r"{ FSL_GHOST(if (inode == G) { SPL_H = \1; SPL_U = \2; }) m_erosion.flat(inode) = \1 - \2; FSL_GHOST(if (inode == G) { SPL_ER = m_erosion.flat(inode); }) }", 1),
+    # (whatever expression is stored: SPL_H / SPL_U are the node's elevation and the eroder's updated -- clamped -- elevation AT THE STORE, so a stored value
+    # that was computed before the clamp no longer satisfies `erosion = h - u`: seeded change C12_4)
+    R(r"m_erosion\.flat\(inode\) = ([^;]+);",
+      r"{ FSL_GHOST(if (inode == G) { SPL_H = inode_elevation; SPL_U = inode_elevation_updated; }) m_erosion.flat(inode) = \1; FSL_GHOST(if (inode == G) { SPL_ER = m_erosion.flat(inode); }) }", 1),
     # ghost capture in the first receiver loop (the second one is outlined above): the receiver's post-erosion elevation
     R(r"\b(?:data_type|double) (\w+) = (elevation\.flat\((\w+)\)) - (m_erosion\.flat\(\3\));",
       r"double \1 = \2 - \4; FSL_GHOST(if (inode == G && r < REC_W) { SPL_NX[r] = \1; SPL_GE[r] = \2; SPL_GER[r] = \4; })", 1),
@@ -692,6 +698,8 @@ def c12_groups():
                          "C12 returned_value_respects_floor: for the value actually returned (erosion = h - u) the caller's new elevation "
                          "elevation - erosion is not below the lowest post-erosion receiver elevation"))
     for w in (1, 2):
+        gs.append(recv_group(w, "uphill", "C12 no negative erosion, structural premise: a receiver whose elevation is above the node's does not enter the "
+                                          "numerator / denominator of the node's discrete equation (it could only raise the node); <= %d receivers per node" % w))
         gs.append(recv_group(w, "frame", "one receiver's contribution to the discrete equation (body of the second receiver loop, the "
                                          "arithmetic part of the node step): memory safety and frame -- it only updates the numerator and "
                                          "denominator of the node's equation; <= %d receivers per node" % w))
@@ -793,6 +801,12 @@ double spl_mul_aw(double a, double w)
 __CPROVER_assigns(MUL_A, MUL_B, MUL_R, MUL_SEEN)
 __CPROVER_ensures(MUL_SEEN == 1 && SAME_D(MUL_A, a) && SAME_D(MUL_B, w) && SAME_D(MUL_R, __CPROVER_return_value))
 ;
+double KDT_A, KDT_B; int KDT_SEEN;       /* ghost: operands of the erodibility * time step product */
+double spl_mul_kdt(double k, double t)
+__CPROVER_assigns(KDT_A, KDT_B, KDT_SEEN)
+__CPROVER_ensures(KDT_SEEN == 1 && SAME_D(KDT_A, k) && SAME_D(KDT_B, t))
+__CPROVER_ensures((k >= 0 && t >= 0 && k < INFINITY && t < INFINITY) ==> __CPROVER_return_value >= 0)
+;
 #define fsl_pow(x, p) spl_pow_rec((x), (p))
 #endif
 """
@@ -802,9 +816,14 @@ def make_recv_areapow(w):
     u = make_recv(w, "frame")
     u.pre = AREAPOW_PRE + u.pre
     u.rules = [V(r"drainage_area\.flat\((\w+)\) \* irec_weight", r"spl_mul_aw(drainage_area.flat(\1), irec_weight)"),
-               V(r"irec_weight \* drainage_area\.flat\((\w+)\)", r"spl_mul_aw(drainage_area.flat(\1), irec_weight)")] + u.rules
-    u.contract = u.contract.replace("__CPROVER_assigns(*eq_num_p, *eq_den_p, ", "__CPROVER_assigns(POW_N, POW_X0, POW_P0, MUL_A, MUL_B, MUL_R, MUL_SEEN, *eq_num_p, *eq_den_p, ") + r"""
-__CPROVER_requires(POW_N == 0 && MUL_SEEN == 0)
+               V(r"irec_weight \* drainage_area\.flat\((\w+)\)", r"spl_mul_aw(drainage_area.flat(\1), irec_weight)"),
+               # the erodibility * time step product of the factor (either operand order)
+               V(r"m_k_coef\((\w+)\)\s*\*\s*dt\b", r"spl_mul_kdt(m_k_coef(\1), dt)"),
+               V(r"\bdt\s*\*\s*m_k_coef\((\w+)\)", r"spl_mul_kdt(m_k_coef(\1), dt)")] + u.rules
+    u.contract = u.contract.replace("__CPROVER_assigns(*eq_num_p, *eq_den_p, ", "__CPROVER_assigns(POW_N, POW_X0, POW_P0, MUL_A, MUL_B, MUL_R, MUL_SEEN, KDT_A, KDT_B, KDT_SEEN, *eq_num_p, *eq_den_p, ") + r"""
+__CPROVER_requires(POW_N == 0 && MUL_SEEN == 0 && KDT_SEEN == 0)
+/* C13: the erodibility in the factor is the erodibility AT THE NODE being eroded, multiplied by the time step of this call */
+__CPROVER_ensures(POW_N > 0 ==> (KDT_SEEN == 1 && SAME_D(KDT_A, m_k_coef_[inode]) && SAME_D(KDT_B, dt)))
 /* C13: whenever this receiver contributes (a power was taken), the first power is (drainage area x partition weight)^m */
 __CPROVER_ensures(POW_N > 0 ==> (MUL_SEEN == 1 && SAME_D(MUL_A, drainage_area[inode]) && SAME_D(MUL_B, m_receivers_weight[inode * REC_W + r])
                                    && SAME_D(POW_X0, MUL_R) && SAME_D(POW_P0, m_area_exp)))
@@ -814,13 +833,14 @@ __CPROVER_ensures(POW_N > 0 ==> (MUL_SEEN == 1 && SAME_D(MUL_A, drainage_area[in
 
 def areapow_group(w):
     recv = make_recv_areapow(w)
-    h = H_RECV.replace("SPL_N_FUNC = nondet_double();", "POW_N = 0; MUL_SEEN = 0; SPL_N_FUNC = nondet_double();")
+    h = H_RECV.replace("SPL_N_FUNC = nondet_double();", "POW_N = 0; MUL_SEEN = 0; KDT_SEEN = 0; SPL_N_FUNC = nondet_double();")
     return Group(
         name="spl.recv.areapow.w%d" % w, units=[make_newton("exit"), recv], harness=h,
-        entry="h_spl_recv_step", enforce="spl_recv_step", replace=_called(recv, ["spl_newton_branch"]) + ["spl_pow_rec", "spl_mul_aw"],
+        entry="h_spl_recv_step", enforce="spl_recv_step", replace=_called(recv, ["spl_newton_branch"]) + ["spl_pow_rec", "spl_mul_aw", "spl_mul_kdt"],
         defines=defines(w), backend="sat", timeout=600, min_obligations=20, replay="replay/spl.cpp",
         clause="C13 shape of the stream-power factor: the first power taken for a receiver is (drainage area * partition weight)^area_exp "
-               "(operands recorded through contract-only product/power functions)")
+               "and the erodibility entering the factor is the one AT THE NODE, times the time step of the call (operands recorded through contract-only "
+               "product / power functions)")
 
 
 _AP = [areapow_group(1)]
